@@ -135,7 +135,8 @@ fn kernel_record(o: &mut Vec<u8>, idx: u64, cls: Class, sub: u64, rng: &mut Rng)
             }
         }
         _ => {
-            n = 1 + (sub % 35) as u32;
+            // one xof_many record in 400 produces a megabyte (size thresholds inside a kernel)
+            n = if rng.chance(1, 400) { 16384 + rng.below(48) as u32 } else { 1 + (sub % 35) as u32 };
             block_len = ((sub / 35) % 65) as u8;
             flags = rng.below(256) as u8;
             fs = 0;
@@ -165,7 +166,11 @@ fn kernel_record(o: &mut Vec<u8>, idx: u64, cls: Class, sub: u64, rng: &mut Rng)
     w64(o, dseed);
     w8(o, placement_aligned4(rng)); // cv / key: uint32_t* in the C prototypes
     w8(o, placement(rng));
-    w8(o, placement(rng));
+    if kind == 3 && n >= 16384 {
+        w8(o, *rng.pick(&[0u8, 1, 2 + 32, 2 + 32, 2 + 16, 2, 2 + 48, 2 + 33]));
+    } else {
+        w8(o, placement(rng));
+    }
     w8(o, if rng.chance(3, 4) { 0 } else { 2 + 8 * rng.below(8) as u8 }); // pointer array: flush right or 8-byte steps
     o.extend_from_slice(&pl_in);
     w32(o, expect.len() as u32);
